@@ -59,7 +59,13 @@ def geometry_job(job):
     rng = random.Random(seed)
     p = spzoo.params(rng)
     how = ["newSP", "loadSP"][idx % 2]
-    base = np.eye(4) if idx % 3 == 0 else spzoo.rand_base(rng)
+    far = idx % 4 == 3          # a small platform standing metres from the world origin: the space-frame inverse Jacobian is
+    if far:                     # then ill conditioned (cond ~ (|p| / radius)^2, here 1e3 .. 1e4) but far from singular
+        for _try in range(50):
+            if p["rb"] <= 0.4:
+                break
+            p = spzoo.params(rng)
+    base = np.eye(4) if (idx % 3 == 0 and not far) else spzoo.rand_base(rng, scale=12.0 if far else 2.0)
     ev = []
     case0 = {"params": p, "how": how, "seed": seed}
     with quiet():
@@ -70,7 +76,7 @@ def geometry_job(job):
     for stage in ("fresh", "moved", "respun"):
         with quiet():
             if stage == "moved":
-                base = spzoo.rand_base(rng)
+                base = spzoo.rand_base(rng, scale=12.0 if far else 2.0)
                 sp.move(tm(base.copy()))
             elif stage == "respun":
                 sp.spinCustom(rng.uniform(-1.0, 1.0))
@@ -78,7 +84,7 @@ def geometry_job(job):
         for _ in range(n_poses):
             rel = spzoo.workspace_pose(rng, h)
             T = base @ rel
-            reg = "%s|%s" % ("identity-base" if np.allclose(base, np.eye(4)) else "placed", stage)
+            reg = "%s|%s" % ("identity-base" if np.allclose(base, np.eye(4)) else "far-base" if far else "placed", stage)
             case = dict(case0, stage=stage, base=base.tolist(), rel=rel.tolist())
             with quiet():
                 lens, valid = sp.IK(top_plate_pos=tm(T.copy()), bottom_plate_pos=tm(base.copy()))
@@ -87,8 +93,11 @@ def geometry_job(job):
                     sp.IK(top_plate_pos=tm(base @ neutral_rel), bottom_plate_pos=tm(base.copy()), protect=True)
                     continue
                 J = np.asarray(sp.inverseJacobian(), dtype=float)
-            if np.linalg.cond(J) > 1e4:
+            cond = float(np.linalg.cond(J))
+            if cond > 1e4:
                 continue
+            if cond >= 1e3:
+                ev.append(("coverage: cond(J^-1) in [1e3, 1e4]", reg, 0.0, 1.0, {"cond": cond}))
             pure = float(np.abs(sp.getTopT().gTM() - T).max()) + float(np.abs(sp.getBottomT().gTM() - base).max())
             ev.append(("query leaves both plate poses unchanged", reg, pure, 1e-9, case))
             scale = max(1.0, float(np.abs(J).max()))
@@ -197,6 +206,9 @@ def run(ctx):
                 "K3 body interface gives the same leg forces", "K4 carryMassCalc = statics of wrench + top-plate and shaft weights"):
         for reg in ("identity-base|fresh", "placed|fresh", "placed|moved", "placed|respun"):
             L.require(law, reg, 3)
+    for law in ("K3 J^-T f = F", "K3 summed leg wrench on the base = -F", "K3 body interface gives the same leg forces",
+                "K4 carryMassCalc = statics of wrench + top-plate and shaft weights", "coverage: cond(J^-1) in [1e3, 1e4]"):
+        L.require(law, "far-base|fresh", 3)
     for law in ("K5 after an explicit-pose query: summed leg wrench on the base = -F", "K5 after an explicit-pose query: carryMassCalc unchanged",
                 "K5 explicit-pose query = Jacobian of that pose"):
         for reg in ("identity-base|fresh", "placed|fresh", "placed|moved", "placed|respun"):
